@@ -32,41 +32,50 @@ def run(ctx):
     ctx.coverage.update(states=res.distinct, transitions=res.generated, exhaustive=True)
     ctx.log("design: %d generated, %d distinct" % (res.generated, res.distinct))
 
-    d = vlib.copy_specs(ctx, "mkvs")
-    out = ctx.path("wlog.json")
-    vh = vlib.popen_vh(["wlog-replay", "-in", "-", "-out", out, "-maxaccept", "1" if q else "1000"])
     keep = []
-
-    def sink(line):
-        if len(keep) < 400:
-            keep.append(line)
-        vh.stdin.write(line)
-    g = vlib.run_tlc(ctx, d, "MCWriteLog", "gen_wlog_quick.cfg" if q else "gen_wlog_thorough.cfg", timeout=3000, sink=sink)
-    vh.stdin.close()
-    if vh.wait() != 0:
-        raise vlib.Infra("wlog-replay failed")
-    vlib.tlc_must_pass(ctx, g, "generation")
-    s = json.load(open(out))
-    if s["cases"] != g.emitted or not g.emitted:
-        raise vlib.Infra("emitted %d cases, replayed %d" % (g.emitted, s["cases"]))
-    ctx.log("replay: %d cases, served %d, not served %d, applies %d, findings %s" % (
-        s["cases"], s["served"], s["not_served"], s["applies"], s["classes"]))
-    if s["not_served"]:
-        print("OBSERVATION property=C13 GetWriteLog declined %d of %d (r1, r2) pairs (error return); none of the served logs was wrong" % (
-            s["not_served"], s["served"] + s["not_served"]))
     seen = set()
-    for f in s["findings"] or []:
-        kind = f["kind"]
-        if kind == "rejected-good" and (f.get("variant") or {}).get("c") != "honest":
-            line = "MODEL-DRIFT property=C13 harmless corrupted log rejected: %s" % f["msg"][:200]
-            if len(ctx.drift) < 5:
-                ctx.drift.append(line)
-                print(line)
-            continue
-        if (kind, f["backend"]) in seen:
-            continue
-        seen.add((kind, f["backend"]))
-        vlib.report(ctx, "%s on %s/%s: %s" % (kind, f["backend"], f["root_type"], f["msg"][:600]), f, {"kind": kind})
+
+    def one_gen(cfg, tag):
+        d = vlib.copy_specs(ctx, "mkvs")
+        out = ctx.path("wlog-%s.json" % tag)
+        vh = vlib.popen_vh(["wlog-replay", "-in", "-", "-out", out, "-maxaccept", "1" if q else "1000"])
+
+        def sink(line):
+            if len(keep) < 400:
+                keep.append(line)
+            vh.stdin.write(line)
+        g = vlib.run_tlc(ctx, d, "MCWriteLog", cfg, timeout=3000, sink=sink)
+        vh.stdin.close()
+        if vh.wait() != 0:
+            raise vlib.Infra("wlog-replay failed")
+        vlib.tlc_must_pass(ctx, g, "generation " + cfg)
+        s = json.load(open(out))
+        if s["cases"] != g.emitted or not g.emitted:
+            raise vlib.Infra("%s: emitted %d cases, replayed %d" % (cfg, g.emitted, s["cases"]))
+        ctx.log("replay %s: %d cases, served %d, not served %d, applies %d, findings %s" % (
+            tag, s["cases"], s["served"], s["not_served"], s["applies"], s["classes"]))
+        if s["not_served"]:
+            print("OBSERVATION property=C13 GetWriteLog declined %d of %d (r1, r2) pairs (error return, no log served; see DESIGN.md R.5): %s" % (
+                s["not_served"], s["served"] + s["not_served"], json.dumps(s.get("declines") or {})[:600]))
+        for f in s["findings"] or []:
+            kind = f["kind"]
+            if kind == "rejected-good" and (f.get("variant") or {}).get("c") != "honest":
+                line = "MODEL-DRIFT property=C13 harmless corrupted log rejected: %s" % f["msg"][:200]
+                if len(ctx.drift) < 5:
+                    ctx.drift.append(line)
+                    print(line)
+                continue
+            if (kind, f["backend"]) in seen:
+                continue
+            seen.add((kind, f["backend"]))
+            vlib.report(ctx, "%s on %s/%s: %s" % (kind, f["backend"], f["root_type"], f["msg"][:600]), f, {"kind": kind})
+        return g, s
+
+    # (a) one case per distinct (initial contents, batch result, last op), each with every single corruption of its log
+    g, s = one_gen("gen_wlog_quick.cfg" if q else "gen_wlog_thorough.cfg", "states")
+    # (b) every batch HISTORY over a two-key universe (remove / re-insert / remove ... of one key inside a batch): the served log
+    #     and the honest apply only
+    g2, s2 = one_gen("gen_wlog_hist_quick.cfg" if q else "gen_wlog_hist_thorough.cfg", "hist")
     # self-test: flip TLC's verdict on one corrupted variant; the real Apply must then disagree with the forged expectation
     forged = None
     for line in keep:
@@ -89,6 +98,7 @@ def run(ctx):
     ctx.coverage.update(
         selftest_forged_expectation_detected=True,
         cases=s["cases"], served=s["served"], not_served=s["not_served"], log_drift=s["log_drift"], applies=s["applies"],
+        history_cases=s2["cases"], history_served=s2["served"], history_log_drift=s2["log_drift"],
         expected_accept=s["expected_accept"], expected_reject=s["expected_reject"],
         expected_root_already_present=s["expected_root_already_present"],
-        traces_validated_against_impl=s["cases"], samples=s["samples"][:2], gen_states=g.distinct)
+        traces_validated_against_impl=s["cases"] + s2["cases"], samples=s["samples"][:2], gen_states=g.distinct)
